@@ -658,6 +658,22 @@ func redactableUses(v ssa.Value, depth int) []ssa.Instruction {
 			if f != nil && recvNamed(f) == tBuffer && (f.Name() == "Write" || f.Name() == "WriteString") {
 				continue
 			}
+			// handed to an unexported helper of the printer whose parameter is
+			// itself used only as the payload of such a write
+			if f != nil && recvNamed(f) == tPP && f.Object() != nil && !f.Object().Exported() && f.Blocks != nil {
+				okAll := true
+				for i, a := range x.Common().Args {
+					if a != v {
+						continue
+					}
+					if i >= len(f.Params) || f.Params[i].Referrers() == nil || len(*f.Params[i].Referrers()) == 0 || len(redactableUses(f.Params[i], depth+1)) > 0 {
+						okAll = false
+					}
+				}
+				if okAll {
+					continue
+				}
+			}
 			bad = append(bad, u)
 		default:
 			bad = append(bad, u)
